@@ -21,7 +21,8 @@ CLAIMED = {
              "king); hence perft of cmd/perft equals the specification's perft for EVERY depth. Tied to the code three ways on every "
              "run: Go legal moves + successors vs the extracted specification, Go Perft vs the specification's perft and the published "
              "tables, Go generators/filter/attackers vs the extracted engine model.",
-        note="positions satisfying the C10 invariant (= the property's 'legal position'); Go int accumulator of perft modelled as Z",
+        note="positions satisfying the C10 invariant (= the property's 'legal position'); Go int accumulator of perft modelled as Z; the Go move list "
+             "holds 255 moves (kernel-checked: covers the 218 of legal chess and the two record positions; the model's lists are unbounded)",
         technique="Coq proof (refinement engine bitboard model -> FIDE mailbox specification, on top of C12, C02, C10) + differential correspondence check against the extracted specification and model",
         ref="DESIGN.md section 0.4, C01"),
     "C02": dict(
@@ -92,7 +93,9 @@ CLAIMED = {
              "them); a checkmated node returns exactly -INF+ply for any window without writing anything; every adopted line is headed "
              "by a mating move, other windows fail high and are rejected. Remaining visible hypotheses: no 64-bit hash collision with a "
              "mated successor, fewer than 256 generated moves at the root and its successors (uint8 counter), evaluation not a mate value "
-             "(C15, closed for legal material). Tied to the code by whole searches on generated mate-in-one positions (cold and warmed "
+             "(C15, closed for legal material). END TO END (GameThm): if the FIDE position reached by a `position` command has a FIDE mate in one, "
+             "the bestmove the whole-engine model prints for the following go line is a FIDE mating move, from any engine state reached from process "
+             "start (one instance is proved with NO remaining hypothesis). Tied to the code by whole searches on generated mate-in-one positions (cold and warmed "
              "tables, cancel points) vs the extracted model; the oracle demands a mating answer.",
         note="hash-collision freedom w.r.t. mated successors and <256 generated moves are explicit hypotheses (the first is inherent to a 64-bit hash, the second an executable check); fuel <= 255",
         technique="Coq proof (score-range and PV-window invariants over the search model, induction on fuel and over iterations) + differential correspondence check",
@@ -145,7 +148,9 @@ CLAIMED = {
              "proved (C05Term): for every state, root and depth < 255 a loop bound of 510 and a recursion bound of 1282 suffice and the result "
              "is the same for all larger bounds (Search is a total function; fuel monotonicity); quiescence terminates by its ply counter and by "
              "material; under bounded check chains the recursion depth is depth + budget + 258 independently of the repetition stack. With "
-             "crash-freedom (C05NoPanic) every go on a legal root yields exactly one answer while the repetition stack has room. "
+             "crash-freedom (C05NoPanic) every go on a legal root yields exactly one answer while the repetition stack has room. Whole-call "
+             "promptness (C05Prompt): the poll that reports done is the last poll of the call, every counted node was preceded by a poll of its own, "
+             "so a call cancelled at poll k counts no node after it; a run that is not cancelled is the same run under every later stop. "
              "Wall-clock promptness is TESTED on the real process (movetime/clock/depth limits, go infinite + stop, terminal positions).",
         note="requested depth < 255 (uint8 depth wraps at 255, as in the Go loop); wall-clock clause tested not proved; the unconditional termination bound rests on the "
              "1024-entry repetition stack (overflow = Go panic, needs a game of > 1000 plies; C03's domain is 600)",
